@@ -323,6 +323,19 @@ PROPS = {
             enum("word-table", "TestC17WordTable"),
         ],
     ),
+    "C18": dict(
+        technique="differential PBT under the race detector in fresh child processes: every program's trace alone vs its trace when all runners are created (parsed) and driven concurrently behind a start barrier, cold parser caches first",
+        level_text="Sets of 2-8 generated programs (flow, random built-ins with per-runner seeds, markup lines, numeric built-ins, converting registrations, immediate commands; "
+                   "some programs repeated) are handed to a child process started from the -race test binary: 1-3 rounds in which one goroutine per program creates its "
+                   "runner and drives it, all released together while the ANTLR DFA caches are still cold in the first round; afterwards each program is run alone in the "
+                   "same process. Traces, error texts, logs and final variables must be identical, and any race detector report or 'fatal error' (concurrent map access) "
+                   "in the child is a violation. Search, not proof.",
+        level_note="The goroutine scheduler is not owned by the harness: the race detector reports unsynchronised conflicting accesses that executed, whatever their order, "
+                   "which is the realistic failure mode (package-level shared state); a race on a path that no generated program executes concurrently stays invisible.",
+        rule="set of programs x rounds; non-trivial = at least two distinct programs with overlapping lifetimes; distinct = distinct serialised cases.",
+        assumptions=["each runner is used by one goroutine, as the statement requires"],
+        subs=[rapid("concurrent", "TestC18Concurrent", 5, 40, race=True, shards=dict(quick=4, thorough=16), shrinktime="60s")],
+    ),
     "C19": dict(
         technique="PBT over constructed doubles with exact contract predicates (math/big where float arithmetic could round) + exhaustive sweep of half-way and integer-adjacent values",
         level_text="For doubles |x| < 2^52 built from integers, k+0.5, neighbours of integers (Nextafter), signed zeros, subnormals, k/10^d, random "
